@@ -435,7 +435,7 @@ func levelFromLog(c *Ctx, f *ssa.Function, v ssa.Value, reach map[*ssa.Function]
 func checkC08(c *Ctx, r *Report, tier string) {
 	r.Rule("C08.R1", "writer/reader grammar agreement for every stream pair", 5)
 	r.Rule("C08.R2", "full reads: no direct Read on an io.Reader whose byte count is discarded (io.ReadFull / binary.Read are exact)", 1)
-	r.Rule("C08.R3", "length fields cannot truncate: a len(…) narrowed to uint8/uint16 that is written to the stream needs a dominating bound check (uint32 counts are bounded by memory)", 5)
+	r.Rule("C08.R3", "length fields cannot truncate: a len(…) narrowed to uint8/uint16 that is written to the stream needs a dominating bound check (uint32 counts are bounded by memory)", 3)
 	r.Rule("C08.R4", "tombstone count/body agreement: the loop that counts a vertex's links and the loop that writes them filter on the tombstone with the same (live) polarity", 1)
 	r.Rule("C08.R5", "restore resets: Load replaces every shard map, resets every counter it then accumulates and stores the entry point", 4)
 	grammarRule(c, r, "C08.R1")
